@@ -236,6 +236,12 @@ func c06(r *sim.R) *sim.Violation {
 		restore()
 		if hung {
 			wd.fs.Yield = nil
+			if fired {
+				// a different fault class than bytes found at rest: the file changed between two
+				// steps of the reader (e.g. it shrank between the size query and the read that
+				// fills the in-memory copy)
+				sig = "a file is damaged while the query is reading it"
+			}
 			return r.Report(&sim.Violation{Clause: "query-does-not-return", Signature: sig, Detail: fmt.Sprintf("%s (workers=%d lowmem=%v)\ndamage: %s\nno result after two simulated hours\n%s", describe(q), workers, lowMem, strings.Join(what, "; "), blockedSummary())})
 		}
 		wd.fs.Yield = nil
